@@ -71,6 +71,17 @@ CHECKS["C11"] = {
     "explanation": "Structural rules over the five WordAdapter trait methods (all paths).",
 }
 
+CHECKS["C13"] = {
+    "module": "rules_c13",
+    "level": "other",
+    "quick_fs": ["default"],
+    "thorough_fs": ["default", "both"],
+    "technique": "MIR path rules with def-use terms: element access index = entry cursor, cursor store discipline per Ok/Err path, guard shape, growth shape",
+    "claim": "For the four in-memory word streams, on every path of read_word/write_word/word_pos/set_word_pos/len: the element accessed is indexed by the entry value of the cursor, Ok paths store cursor+1 exactly once (set_word_pos: exactly the argument; zero-extended: min(arg, usize::MAX)), Err paths store nothing, the rejecting guard is position > len(data), the zero-extended reader has no error path and yields W::ZERO exactly where get() fails while still advancing, the vector writer grows with resize(cursor+1, W::ZERO) before the store and only when cursor >= len, the stored element is the argument. Because these are per-call effects on (array, cursor) that hold on all paths, every call sequence behaves as the array-with-cursor model; values of std's get/resize are std's.",
+    "note": "Trusted: std slice/Vec contracts (get, get_mut, index_mut, resize, len), rustc MIR, exporter.",
+    "explanation": "Structural effect check of each method against the array+cursor model on all paths.",
+}
+
 NOT_APPLICABLE = {
     "C17": "a bijection over all values of six integer widths is a statement about (x>>1)^-(x&1) on 2^n values: the generic body is a chain of operator-trait calls with no table, pairing, ordering or ownership structure to check; proving the identity needs bit-vector reasoning (a solver) or running it, both outside static analysis (DESIGN.md section 6)",
 }
